@@ -145,6 +145,11 @@ def run_pipeline(case, data, tmpdir, script_override=None, decisions=None, strat
         saver = None
         if case["saver"] is not None:
             path = os.path.join(tmpdir, "stream.wav")
+            if case.get("stale_files"):
+                # a recording of an earlier session sits at the output path: this session's file replaces it, whatever happens
+                with wave.open(path, "wb") as fp_:
+                    fp_.setframerate(case["rate"]), fp_.setsampwidth(case["width"]), fp_.setnchannels(case["channels"])
+                    fp_.writeframes(bytes([7]) * (case["width"] * case["channels"] * 37))
             saver = W.StreamSaverWorker(reader, filename=path, cache_size_sec=case["saver"]["cache_size_sec"],
                                         timeout=0.2)
             saver.vf_name = "saver"
@@ -179,10 +184,16 @@ def run_pipeline(case, data, tmpdir, script_override=None, decisions=None, strat
             elif kind == "regionsaver":
                 d = os.path.join(tmpdir, f"regions{i}")
                 os.makedirs(d, exist_ok=True)
+                for name_ in case.get("stale_region_files", ()):
+                    with open(os.path.join(d, name_), "wb") as fp_:
+                        fp_.write(b"left over from an earlier run")
                 o = W.RegionSaverWorker(os.path.join(d, case["template"]), timeout=to, **({"logger": logger} if logger is not None else {}))
                 o.vf_dir = d
             else:
                 p = os.path.join(tmpdir, f"joined{i}.wav")
+                if case.get("stale_files"):
+                    with open(p, "wb") as fp_:
+                        fp_.write(b"RIFF left over from an earlier run")
                 o = W.AudioEventsJoinerWorker(case["silence"], p, None, case["rate"], case["width"], case["channels"], timeout=to)
                 o.vf_path = p
             o.vf_name = f"obs{i}:{kind}"
